@@ -25,7 +25,7 @@ ALL_CB = ["on_open", "on_message", "on_data", "on_ping", "on_pong", "on_error", 
 
 def bounds(tier):
     if tier == "quick":
-        return ("34 endings x {no ping thread, ping thread} x {plain, TLS}; preemption bound 1 at synchronisation points for ping-thread scenarios; closer thread: "
+        return ("36 endings x {no ping thread, ping thread} x {plain, TLS}; preemption bound 1 at synchronisation points for ping-thread scenarios; closer thread: "
                 "1 preemption at every synchronisation point (all scenarios) and at every executed line (one scenario)")
     return ("same scenarios; preemption bound 2 at synchronisation points; closer thread: 1 preemption at every executed library line for every closer scenario, 2 at synchronisation points")
 
@@ -65,6 +65,12 @@ def endings():
     # a clean first run followed by a second run whose end depends on the keepalive machinery working again
     E.append(("clean-then-silent-second-run", dict(tail=[(3.0, "data", R.encode(R.CLOSE, b"\x03\xe8"))], needs_ping=True, second="silent"),
               dict(close=(1000, ""), err=False, second=dict(close=(None, None), err=True))))
+    # a run ended by a server close frame with code and reason, then a second run of the same object that never gets connected: nothing of the
+    # first run's close frame may show up in the second run's on_close
+    E.append(("server-close-then-refused-second-run", dict(tail=[(3.0, "data", R.encode(R.CLOSE, b"\x03\xe9going away"))], second="refused"),
+              dict(close=(1001, "going away"), err=False, second=dict(close=(None, None), err=True, noopen=True))))
+    E.append(("server-close-then-404-second-run", dict(tail=[(3.0, "data", R.encode(R.CLOSE, b"\x03\xe9going away"))], second="404"),
+              dict(close=(1001, "going away"), err=False, second=dict(close=(None, None), err=True, noopen=True))))
     E.append(("refused", dict(refused=True), dict(close=(None, None), err=True, noopen=True)))
     E.append(("handshake-404", dict(hs="status:404"), dict(close=(None, None), err=True, noopen=True)))
     E.append(("handshake-garbage", dict(hs="garbage"), dict(close=(None, None), err=True, noopen=True)))
@@ -181,6 +187,10 @@ def make_spec(desc):
         spec["expect"]["name"] = name
         if peer.get("second") == "silent":
             spec["second_attempts"] = [lambda: tnet.ServerPeer(script=traffic(), on_ping=None)]
+        elif peer.get("second") == "refused":
+            spec["second_attempts"] = ["refused"]
+        elif peer.get("second") == "404":
+            spec["second_attempts"] = [lambda: tnet.ServerPeer(hs="status:404")]
         if exp["err"]:
             # after a run that reported an error the same object is run against a clean peer: nothing of the first run may stick
             spec["second_attempts"] = [lambda: tnet.ServerPeer(script=traffic() + [(3.0, "data", R.encode(R.CLOSE, b"\x03\xe8"))], on_ping=("all", 0.25))]
